@@ -63,51 +63,6 @@ fn ev_span(ev: &Event) -> Option<Span> {
     }
 }
 
-/// independent comment scanner: true for every byte inside a `-- ...` or `[- ... -]` comment,
-/// honouring backslash escapes; starts at byte `from`.
-fn comment_mask(input: &str, from: usize) -> Vec<bool> {
-    let b = input.as_bytes();
-    let mut m = vec![false; b.len()];
-    let cs: Vec<(usize, char)> = input.char_indices().filter(|(i, _)| *i >= from).collect();
-    let mut k = 0;
-    while k < cs.len() {
-        let (i, c) = cs[k];
-        let next = cs.get(k + 1).map(|x| x.1);
-        if c == '\\' {
-            k += 2;
-        } else if c == '-' && next == Some('-') {
-            let mut j = k;
-            while j < cs.len() && cs[j].1 != '\n' {
-                j += 1;
-            }
-            let end = if j < cs.len() { cs[j].0 } else { b.len() };
-            for x in i..end {
-                m[x] = true;
-            }
-            k = j;
-        } else if c == '[' && next == Some('-') {
-            let mut j = k + 2;
-            let mut end = b.len();
-            let mut nk = cs.len();
-            while j < cs.len() {
-                if cs[j].1 == '-' && cs.get(j + 1).map(|x| x.1) == Some(']') {
-                    end = cs[j + 1].0 + 1;
-                    nk = j + 2;
-                    break;
-                }
-                j += 1;
-            }
-            for x in i..end {
-                m[x] = true;
-            }
-            k = nk;
-        } else {
-            k += 1;
-        }
-    }
-    m
-}
-
 fn main() {
     let bundled = Converter::bundled();
     let empty = Converter::empty();
